@@ -144,9 +144,41 @@ def run(chk, repo):
     el = first.orelse[0] if ok and first.orelse else None
     ok2 = el is not None and isinstance(el, ast.If) and same_cond(norm_cmp(el.test, call_hook=e9.len_hook),
                                                                   parse_cond("order >= L", {"L": RF.sym("len(acdata)")})) \
-        and unparse(el.body[0]) == "acdata = Stream(acdata).append(0).take(order + 1)"
+        and len(el.body) == 1
+    ext_why = "r must be zero-extended to order + 1 entries when the order is not below its length"
+    if ok2:
+        st_ = el.body[0]
+        Lr, order_ = RF.sym("len(acdata)"), RF.sym("order")
+
+        def ext_len(e_):
+            """length of a freshly built zero extension of acdata, or None"""
+            t_ = unparse(e_)
+            if isinstance(e_, ast.Call) and isinstance(e_.func, ast.Attribute) and e_.func.attr == "take" and len(e_.args) == 1 \
+                    and unparse(e_.func.value) in ("Stream(acdata).append(0)", "Stream(acdata).append(0.0)", "Stream(acdata).append(zeros())",
+                                                   "Stream(acdata).append(it.repeat(0))"):
+                return Evaluator().ev(e_.args[0])              # endless zeros after the data, cut at the count taken
+            if isinstance(e_, ast.BinOp) and isinstance(e_.op, ast.Add) and unparse(e_.left) in ("list(acdata)", "[x for x in acdata]") \
+                    and isinstance(e_.right, ast.BinOp) and isinstance(e_.right.op, ast.Mult):
+                a_, b_ = e_.right.left, e_.right.right
+                cnt_ = b_ if unparse(a_) in ("[0]", "[0.0]") else a_ if unparse(b_) in ("[0]", "[0.0]") else None
+                if cnt_ is not None:
+                    return Lr + Evaluator(call_hook=e9.len_hook).ev(cnt_).subst({"len(acdata)": Lr}) if False else \
+                        Lr + Evaluator(call_hook=e9.len_hook).ev(cnt_)
+            return None
+        if isinstance(st_, ast.Assign) and unparse(st_.targets[0]) == "acdata":
+            try:
+                ln_ = ext_len(st_.value)
+            except Inconclusive:
+                ln_ = None
+            ok2 = ln_ is not None and ln_ == order_ + 1
+            if ln_ is None:
+                ext_why = "zero extension not recognised as a fresh sequence of acdata followed by zeros: " + short(st_)
+        else:
+            ok2 = False
+            ext_why = "the caller's sequence is modified in place (%s): a later call on the same data sees a longer " \
+                      "autocorrelation and a different default order" % short(st_)
     chk.decide(ok and ok2, "C10.levinson", WL("levinson_durbin"), "order default and zero extension: " + short(first)[:110],
-               why="r must be zero-extended to order + 1 entries when the order is not below its length", node=first)
+               why=ext_why, node=first)
     inner = [f for f in body if isinstance(f, FuncTypes) and f.name == "inner"]
     chk.require(len(inner) == 1, "levinson_durbin: inner product not found")
     r = docstring_free(inner[0].body)[-1]
